@@ -1,14 +1,17 @@
 """C13 -- variable metadata reports the declared attributes.
 
 E4: all single choices and all pairs of (attribute, expression form) on every variable kind (the forms include,
-for each operation the metadata function accepts in an affine block, an affine and a non-affine instance); the
+for each operation the metadata function accepts in an affine block, an affine and a non-affine instance, the
+non-affine ones up to degree 4 in distinct parameters; for array variables, attributes whose elements differ and
+depend on parameters -- an array parameter in several forms, array constructors); the
 reference value of each attribute expression at every point of a parameter grid is compared with
 (i) the attribute on the Variable object (MX attributes evaluated as functions of the model's
 parameters) and (ii) the matching row / column of variable_metadata_function.
 
 Histories: on a reduced set of models whose attributes depend on parameters, every sequence of at most 3
 (quick) / 4 (thorough) events from {read the metadata function, read the Variable attributes, simplify(o) for
-each metadata-rewriting option set o} is applied to ONE Model object; at every read and after the last event
+each metadata-rewriting option set o, among them expand_vectors and expand_vectors + expand_mx on array models with
+element-wise different parameter-dependent attributes} is applied to ONE Model object; at every read and after the last event
 both views must equal the reference state machine's attribute values for the variables the model still lists.
 """
 import itertools
@@ -63,6 +66,22 @@ WL_NONAFFINE = {
     "p-over-q-plus-1": B("/", P, B("+", Q, N(1))),
     "p-times-p": B("*", P, P),
 }
+# Degree: the forms above stop at degree 2, where the second derivative is a non-zero *constant*, so a decision that
+# looks at the second derivative at a point (the place A and b of the rebuild are taken from) cannot be told from the
+# structural one.  From degree 3 on it can: monomials in three and four distinct parameters (no squares, so only
+# listed operations), a cubic next to an affine part, under a division by a literal, a cubic in two parameters
+# written without a square, and a cubic centred at 1 instead of 0 (second derivative zero at p = q = s = 1 only).
+# They need more parameters than p, q: s, t are declared in the models that mention them.
+S, T_ = V("s"), V("t")
+WL_DEGREE = {
+    "p-q-s": B("*", B("*", P, Q), S),
+    "p-q-s-plus-p": B("+", B("*", B("*", P, Q), S), P),
+    "pqs-over-4-minus-q": B("-", B("/", B("*", B("*", P, Q), S), N(4)), Q),
+    "p-q-s-t": B("*", B("*", B("*", P, Q), S), T_),
+    "pq-times-p-minus-q": B("*", B("*", P, Q), B("-", P, Q)),
+    "shifted-cubic": B("*", B("*", B("-", P, N(1)), B("-", Q, N(1))), B("-", S, N(1))),
+}
+WL_NONAFFINE.update(WL_DEGREE)
 WL_FORMS = dict(WL_AFFINE, **WL_NONAFFINE)
 FORMS.update(WL_FORMS)
 # quick: the whitelist forms on one kind per variable group of the function (+ one array kind); thorough: every kind
@@ -70,6 +89,44 @@ WL_QUICK_KINDS = ("alg-Real", "state-Real", "input-Real", "parameter-Real", "con
 PAIR_FORMS = ["real-literal", "affine", "p-times-q", "affine-wl", "q-over-p"]
 INT_FORMS = {"int-literal": N(2), "int-literal-3": N(3)}
 GRID = [(2.0, 3.0), (-1.5, 0.5), (0.25, -4.0)]
+GRID_ST = [(5.0, 7.0), (-0.5, 1.25), (1.5, -2.0)]  # s, t at the same three points (never 0, never 1)
+GRID_A = [1.0, -0.5, 0.25]  # an array parameter a takes a[n] = (n + 1.5) * this (n: row-major position): all different
+EXTRA_PARAMS = {"s": "parameter Real s = 5;", "t": "parameter Real t = 7;"}  # declared only where mentioned
+
+
+def arr_node(dims, elem):
+    """Array constructor node of the given dims; elem(n) is the node of the n-th element in row-major order."""
+    if len(dims) == 1:
+        return ("arr", tuple(elem(i) for i in range(dims[0])))
+    return ("arr", tuple(("arr", tuple(elem(r * dims[1] + c) for c in range(dims[1]))) for r in range(dims[0])))
+
+
+def arr_literal(dims, first=1.5):
+    return arr_node(dims, lambda n: N(n + first))
+
+
+A_ = V("a")
+
+
+def array_forms(dims):
+    """Attribute expressions whose *elements* differ and depend on parameters -- what expand_vectors has to hand out
+    element by element and the metadata function has to lay out row by row: an array parameter `a` of the variable's
+    shape as such, in an affine form of listed operations (rebuild), times a scalar parameter (bilinear), times two
+    (degree 3), and array constructors of parameter expressions (all elements affine; literal / affine / bilinear)."""
+    mixed = [lambda n: N(n + 1.5), lambda n: B("*", N(n + 3), P), lambda n: B("-", B("*", P, Q), N(n))]
+    return {
+        "arr-a": A_,
+        "arr-three-a": B("*", N(3), A_),
+        "arr-neg-p-a": ("un", "-", B("*", P, A_)),
+        "arr-p-q-a": B("*", B("*", P, Q), A_),
+        "arr-ctor-affine": arr_node(dims, lambda n: B("+", B("*", N(n + 3), P), Q)),
+        "arr-ctor-mixed": arr_node(dims, lambda n: mixed[n % 3](n)),
+    }
+
+
+# kinds that get the array forms: quick a vector and a non-square matrix; thorough every group and the square matrix
+ARR_QUICK_KINDS = ("alg-Real-1d", "alg-Real-2x3")
+ARR_KINDS = ARR_QUICK_KINDS + ("state-Real-1d", "alg-Real-2d", "state-Real-2x3", "input-Real-2x3", "parameter-Real-2x3")
 
 # kind -> (declaration prefix, type, dims, own value text or None, equation making it what it is)
 KINDS = {
@@ -84,10 +141,25 @@ KINDS = {
     "alg-Real-1d": ("", "Real", (3,), None, ""),
     "state-Real-1d": ("", "Real", (3,), None, "der(x) = ones(3);"),
     "alg-Real-2d": ("", "Real", (2, 2), None, ""),
+    "alg-Real-2x3": ("", "Real", (2, 3), None, ""),
+    "state-Real-2x3": ("", "Real", (2, 3), None, "der(x) = ones(2, 3);"),
+    "input-Real-2x3": ("input", "Real", (2, 3), None, ""),
+    "parameter-Real-2x3": ("parameter", "Real", (2, 3), "value", ""),
     "alg-Real-output": ("output", "Real", (), None, ""),
     "state-Real-output": ("output", "Real", (), None, "der(x) = 1;"),
     "alg-Real-discrete": ("discrete", "Real", (), None, ""),
 }
+
+
+THOROUGH_ONLY_KINDS = ("state-Real-2x3", "input-Real-2x3", "parameter-Real-2x3")
+
+
+def own_default(kind):
+    """The declared value of a parameter / constant kind when the case does not give one."""
+    pre, typ, dims, own, _ = KINDS[kind]
+    if dims:
+        return arr_literal(dims, 0.75)
+    return N(7) if typ == "Integer" else N(0.75)
 
 
 def cases(tier):
@@ -95,6 +167,8 @@ def cases(tier):
     out = []
     num_attrs = ("min", "max", "start", "nominal")
     for kind, (pre, typ, dims, own, _) in KINDS.items():
+        if kind in THOROUGH_ONLY_KINDS and tier != "thorough":
+            continue
         forms = FORMS if typ == "Real" else INT_FORMS
         out.append((kind, {}))
         if typ == "Boolean":
@@ -108,6 +182,8 @@ def cases(tier):
             continue
         attrs = num_attrs + (("value",) if own else ())
         for a in attrs:
+            if a == "value" and dims:
+                continue  # a scalar form is not the value of an array
             for fn, fe in forms.items():
                 if fn in WL_FORMS and tier != "thorough" and kind not in WL_QUICK_KINDS:
                     continue
@@ -118,12 +194,16 @@ def cases(tier):
         for fx in (True, False):
             out.append((kind, {"fixed": ("bool", ("bool", fx), bool(dims))}))
         if dims:
-            lit = ("arr", tuple(N(i + 1.5) for i in range(dims[0]))) if len(dims) == 1 else ("arr", (("arr", (N(1), N(2))), ("arr", (N(3), N(4)))))
-            for a in num_attrs:
+            lit = arr_literal(dims) if len(dims) == 1 else arr_literal(dims, 1)
+            for a in attrs:
                 out.append((kind, {a: ("array-literal", lit, False)}))
+            if kind in (ARR_KINDS if tier == "thorough" else ARR_QUICK_KINDS):
+                for a in attrs:
+                    for fn, fe in array_forms(dims).items():
+                        out.append((kind, {a: (fn, fe, False)}))
         # pairs
         pair_forms = PAIR_FORMS if typ == "Real" else list(forms)
-        if kind in ("alg-Real", "state-Real", "parameter-Real", "alg-Integer", "alg-Real-1d") or tier == "thorough":
+        if kind in ("alg-Real", "state-Real", "parameter-Real", "alg-Integer", "alg-Real-1d") or (tier == "thorough" and not (dims and own)):
             for a1, a2 in itertools.combinations(attrs, 2):
                 for f1, f2 in itertools.product(pair_forms, repeat=2):
                     out.append((kind, {a1: (f1, forms[f1], bool(dims)), a2: (f2, forms[f2], bool(dims))}))
@@ -144,37 +224,56 @@ def decl_text(kind, mods):
             s += " = " + M.pe(val[1])
         elif typ == "Integer":
             s += " = 7"
+        elif dims:
+            s += " = " + M.pe(own_default(kind))
         else:
             s += " = 0.75"
     return s + ";"
 
 
+def mods_deps(mods):
+    used = set()
+    for fn, e, each in mods.values():
+        used |= deps(e)
+    return used
+
+
 def text_of(kind, mods):
     eq = KINDS[kind][4]
-    decl = ["parameter Real p = 2;", "parameter Real q = 3;", decl_text(kind, mods)]
+    used = mods_deps(mods)
+    decl = ["parameter Real p = 2;", "parameter Real q = 3;"] + [EXTRA_PARAMS[n] for n in ("s", "t") if n in used]
+    if "a" in used:
+        dims = KINDS[kind][2]
+        decl.append("parameter Real a[%s] = %s;" % (", ".join(map(str, dims)), M.pe(arr_literal(dims))))
+    decl.append(decl_text(kind, mods))
     lines = ["model M"] + ["  " + d for d in decl] + ["equation"]
     if eq:
         lines.append("  " + eq)
     return "\n".join(lines + ["end M;"]) + "\n"
 
 
-def reference(kind, mods, p, q):
+def grid_env(i, dims=()):
+    """Parameter values at grid point i: p, q, s, t and, for the variable's dims, the array parameter a."""
+    env = {"p": GRID[i][0], "q": GRID[i][1], "s": GRID_ST[i][0], "t": GRID_ST[i][1]}
+    if dims:
+        env["a"] = (np.arange(int(np.prod(dims)), dtype=float).reshape(dims) + 1.5) * GRID_A[i]
+    return env
+
+
+def reference(kind, mods, env):
     """attr -> numpy array (element order: column-major of the symbol) of expected values."""
     pre, typ, dims, own, _ = KINDS[kind]
     n = int(np.prod(dims)) if dims else 1
-    env = {"p": p, "q": q}
     out = {}
     for a in ATTRS:
-        if a in mods:
-            v = M.evn(mods[a][1], env)
+        if a in mods or (a == "value" and own):
+            v = M.evn(mods[a][1] if a in mods else own_default(kind), env)
             arr = np.asarray(v, dtype=float)
             if arr.ndim == 0:
                 arr = np.full(n, float(arr))
             elif arr.ndim == 2:
                 arr = arr.flatten(order="F")
             out[a] = arr
-        elif a == "value" and own:
-            out[a] = np.full(n, 7.0 if typ == "Integer" else 0.75)
         else:
             out[a] = np.full(n, DEFAULT[a])
     return out
@@ -200,15 +299,30 @@ GROUP_OF = {"alg": "alg_states", "state": "states", "input": "inputs", "paramete
 MD_GROUPS = ["states", "alg_states", "inputs", "parameters", "constants"]
 
 
+def _has_mx(val):
+    import casadi as ca
+
+    return isinstance(val, ca.MX) or (isinstance(val, list) and any(_has_mx(v) for v in val))
+
+
 def attr_value(model, val, pvals):
-    """Numeric value of an attribute object (number / list / DM / MX in the model's parameters)."""
+    """Numeric value of an attribute object (number / nested list / DM / MX in the model's parameters; a nested list
+    may hold MX entries), elements in column-major order."""
     import casadi as ca
 
     if isinstance(val, ca.MX):
         syms = [v.symbol for v in model.parameters]
         f = ca.Function("attr", syms, [val])
-        r = f(*[pvals[v.symbol.name()] for v in model.parameters])
+        args = []
+        for v in model.parameters:
+            x = np.asarray(pvals[v.symbol.name()], dtype=float)
+            args.append(x.reshape(v.symbol.shape, order="F") if x.ndim == 1 and x.size > 1 else x)
+        r = f(*args)
         return np.array(ca.DM(r)).flatten(order="F")
+    if isinstance(val, list) and _has_mx(val):
+        rows = [attr_value(model, v, pvals) for v in val]  # entries of a vector, or the rows of a matrix
+        a = np.array(rows, dtype=float)
+        return a.flatten(order="F") if isinstance(val[0], list) else a.ravel()
     a = np.array(val, dtype=float)
     return a.flatten(order="F") if a.ndim == 2 else a.ravel()
 
@@ -222,9 +336,12 @@ def check(job):
     sigbase = "%s:%s" % (kind, "+".join("%s=%s%s" % (a, "each-" if mods[a][2] else "", mods[a][0]) for a in mods) or "defaults")
     try:
         m = cas.generate(text, "M")
-        fmd = m.variable_metadata_function
     except Exception as e:
         return [("generate-raises:%s:%s" % (sigbase, common.exc_sig(e)), "does not generate: %r\n%s" % (e, text), case)]
+    try:
+        fmd = m.variable_metadata_function
+    except Exception as e:
+        return [("metadata-function-raises:%s:%s" % (sigbase, common.exc_sig(e)), "variable_metadata_function raises %r\n%s" % (e, text), case)]
     pre, typ, dims, own, _ = KINDS[kind]
     group = GROUP_OF[kind.split("-")[0]]
     vs = [v for v in getattr(m, group) if v.symbol.name() == "x"]
@@ -233,11 +350,12 @@ def check(job):
     x = vs[0]
     n = int(np.prod(dims)) if dims else 1
     viol = []
-    for p, q in GRID:
-        ref = reference(kind, mods, p, q)
-        pvals = {"p": p, "q": q}
+    for gi, (p, q) in enumerate(GRID):
+        pvals = grid_env(gi, dims)
+        ref = reference(kind, mods, pvals)
         if group == "parameters":
             pvals["x"] = ref["value"] if n > 1 else float(ref["value"][0])
+        at = " ".join("%s=%r" % (v.symbol.name(), np.asarray(pvals[v.symbol.name()]).tolist()) for v in m.parameters if v.symbol.name() != "x")
         # (i) the Variable object
         for a in ATTRS:
             try:
@@ -248,7 +366,7 @@ def check(job):
             if got.size == 1 and n > 1:
                 got = np.full(n, float(got[0]))
             if not same(got, ref[a]):
-                viol.append(("attribute-value:%s:%s" % (sigbase, a), "Variable.%s of x evaluates to %r at p=%r q=%r, declared value is %r\n%s" % (a, got.tolist(), p, q, ref[a].tolist(), text), case))
+                viol.append(("attribute-value:%s:%s" % (sigbase, a), "Variable.%s of x evaluates to %r at %s, declared value is %r\n%s" % (a, got.tolist(), at, ref[a].tolist(), text), case))
         # (ii) the metadata function
         pvec = []
         for v in m.parameters:
@@ -263,7 +381,7 @@ def check(job):
         rows = mat[row0 : row0 + n, :]
         for j, a in enumerate(ATTRS):
             if not same(rows[:, j], ref[a]):
-                viol.append(("metadata-function:%s:%s" % (sigbase, a), "variable_metadata_function gives %s = %r for x at p=%r q=%r, declared value is %r\n%s" % (a, rows[:, j].tolist(), p, q, ref[a].tolist(), text), case))
+                viol.append(("metadata-function:%s:%s" % (sigbase, a), "variable_metadata_function gives %s = %r for x at %s, declared value is %r\n%s" % (a, rows[:, j].tolist(), at, ref[a].tolist(), text), case))
         if viol:
             break
     # python types
@@ -304,14 +422,39 @@ HFORMS = {
     "sin-r": ("call", "sin", (R,)),
     "k-over-p": B("/", K, P),  # quotient, non-affine -> affine (k / 2) once p is inlined
     "p-over-k": B("/", P, K),  # quotient that stays non-affine (2 / k); thorough only
+    "k-p-q": B("*", B("*", K, P), Q),  # degree 3 in distinct parameters -> affine (6 * k) once p, q are inlined
 }
 HFORMS_THOROUGH_ONLY = ("p-over-k",)
+HFORMS_QUICK_ONE = ("k-p-q",)  # quick: on one attribute only, not as a parameter value
 ROT_FORMS = ["affine-p", "r-plus-k", "p-times-q", "k-times-p"]  # all integer-valued on integers
+# g: a free scalar parameter of the array models; an array parameter takes (n + 1.5) * its entry at row-major position n
 HGRID = [
-    {"p": 2.0, "q": 3.0, "k": 0.5, "r": -1.25, "c": 4.0, "x": 1.75},
-    {"p": -1.5, "q": 0.5, "k": 2.0, "r": 3.0, "c": -2.0, "x": 0.6},
-    {"p": 0.25, "q": -4.0, "k": -3.0, "r": 0.75, "c": 1.0, "x": -2.5},
+    {"p": 2.0, "q": 3.0, "k": 0.5, "r": -1.25, "c": 4.0, "x": 1.75, "g": -0.75, "a": 1.0},
+    {"p": -1.5, "q": 0.5, "k": 2.0, "r": 3.0, "c": -2.0, "x": 0.6, "g": 1.5, "a": -0.5},
+    {"p": 0.25, "q": -4.0, "k": -3.0, "r": 0.75, "c": 1.0, "x": -2.5, "g": 4.0, "a": 0.25},
 ]
+G_ = V("g")
+
+
+def harray_forms(dims):
+    """Array-valued attribute expressions of the history models: the array parameter a as such, times a parameter with
+    a value (bilinear until p is inlined), in an affine form, times the free parameter g, an array constructor with
+    affine / literal / bilinear elements, a literal array."""
+    elems = [lambda n: B("+", B("*", N(n + 3), P), G_), lambda n: N(n + 1.5), lambda n: B("-", B("*", G_, P), N(n))]
+    return {
+        "arr-a": A_,
+        "arr-neg-p-a": ("un", "-", B("*", P, A_)),
+        "arr-three-a": B("*", N(3), A_),
+        "arr-g-a": B("*", G_, A_),
+        "arr-ctor": arr_node(dims, lambda n: elems[n % 3](n)),
+        "array-literal": arr_literal(dims, 10),
+    }
+
+
+HARR_ROTS = {  # attribute -> form, two rotations
+    "A": {"max": "arr-a", "min": "arr-neg-p-a", "start": "array-literal", "nominal": "arr-three-a"},
+    "B": {"max": "arr-ctor", "min": "arr-g-a", "start": "arr-a", "nominal": "array-literal"},
+}
 OPTS = {  # event name -> option sets given to Model.simplify, in the order pymoca applies them inside one call
     "RSV": ("resolve_parameter_values",),
     "RPE": ("replace_parameter_expressions",),
@@ -320,10 +463,12 @@ OPTS = {  # event name -> option sets given to Model.simplify, in the order pymo
     "RCV": ("replace_constant_values",),
     "EV": ("expand_vectors",),
     "DA": ("detect_aliases",),
+    "EVX": ("expand_vectors", "expand_mx"),  # the option pair: vectors are expanded at another point of simplify()
     "PEV": ("replace_parameter_expressions", "replace_parameter_values"),  # thorough only
 }
 STEP_OF = {"resolve_parameter_values": "RSV", "replace_parameter_expressions": "RPE", "replace_constant_expressions": "RCE",
-           "replace_parameter_values": "RPV", "replace_constant_values": "RCV", "expand_vectors": "EV", "detect_aliases": "DA"}
+           "replace_parameter_values": "RPV", "replace_constant_values": "RCV", "expand_vectors": "EV", "detect_aliases": "DA",
+           "expand_mx": "MX"}
 READS = ("RF", "RV")
 TYPES = {"Real": float, "Integer": int, "Boolean": bool}
 
@@ -358,10 +503,12 @@ def hmodels(tier):
     # one attribute, every form: each form's own transitions (non-affine -> constant, bilinear -> affine, ...)
     hforms = {fn: fe for fn, fe in HFORMS.items() if tier == "thorough" or fn not in HFORMS_THOROUGH_ONLY}
     for i, (fn, fe) in enumerate(hforms.items()):
-        for a in num_attrs if tier == "thorough" else (num_attrs[i % 4], num_attrs[(i + 2) % 4]):
+        one = tier != "thorough" and fn in HFORMS_QUICK_ONE
+        for a in num_attrs if tier == "thorough" else (num_attrs[i % 4], num_attrs[(i + 2) % 4])[: 1 if one else 2]:
             add("alg-Real", {a: (fn, fe, False)})
     for fn, fe in hforms.items():
-        add("parameter-Real", {"value": (fn, fe, False)})
+        if tier == "thorough" or fn not in HFORMS_QUICK_ONE:
+            add("parameter-Real", {"value": (fn, fe, False)})
     for fn in ("affine-p", "p-times-q", "r-plus-k"):
         add("constant-Real", {"value": (fn, HFORMS[fn], False)})
     # all attributes at once, forms rotated over the attributes, on the other kinds
@@ -384,6 +531,20 @@ def hmodels(tier):
                 lit = ("arr", tuple(N(i + 1.5) for i in range(dims[0]))) if len(dims) == 1 else ("arr", (("arr", (N(1), N(2))), ("arr", (N(3), N(4)))))
                 mods["max"] = ("array-literal", lit, False)
             add(kind, mods)
+    # array variables whose attributes differ element by element and depend on parameters: context 'arrv' declares
+    # p = 2, a free g and an array parameter a of the variable's shape with a literal value, 'arrf' leaves a free
+    akinds = [("alg-Real-2x3", "arrv", "A"), ("alg-Real-2x3", "arrf", "B"), ("alg-Real-1d", "arrv", "B"), ("alg-Real-1d", "arrf", "A")]
+    if tier == "thorough":
+        akinds = [(kind, c, r) for kind in ("alg-Real-2x3", "alg-Real-1d", "alg-Real-2d", "state-Real-2x3", "input-Real-2x3", "parameter-Real-2x3")
+                  for c in ("arrv", "arrf") for r in ("A", "B")]
+    for kind, ctxn, rot in akinds:
+        pre, typ, dims, own, _ = KINDS[kind]
+        forms = harray_forms(dims)
+        mods = {a: (fn, forms[fn], False) for a, fn in HARR_ROTS[rot].items()}
+        mods["fixed"] = ("bool", ("bool", True), True)
+        if own:
+            mods["value"] = ("arr-three-a", forms["arr-three-a"], False)
+        out.append((ctxn, kind, mods))
     return out
 
 
@@ -403,17 +564,21 @@ def hdecls(spec):
         d.append({"name": name, "group": group, "typ": typ, "dims": tuple(dims), "attrs": attrs or {}, "value": value})
 
     decl("p", "parameters", T, value=N(2))
-    decl("q", "parameters", T, value=N(3))
-    if ctxn == "full":
-        decl("k", "parameters", T)
-        decl("r", "parameters", T, value=HFORMS["affine-p"])
-    decl("c", "constants", "Real", value=N(4))
-    decl("z", "alg_states", "Real")
-    decl("w", "alg_states", "Real")
+    if ctxn in ("arrv", "arrf"):
+        decl("g", "parameters", "Real")
+        decl("a", "parameters", "Real", dims, value=arr_literal(dims) if ctxn == "arrv" else None)
+    else:
+        decl("q", "parameters", T, value=N(3))
+        if ctxn == "full":
+            decl("k", "parameters", T)
+            decl("r", "parameters", T, value=HFORMS["affine-p"])
+        decl("c", "constants", "Real", value=N(4))
+        decl("z", "alg_states", "Real")
+        decl("w", "alg_states", "Real")
     attrs = {a: mods[a][1] for a in mods if a != "value"}
     value = None
     if own:
-        value = mods["value"][1] if "value" in mods else (N(7) if typ == "Integer" else N(0.75))
+        value = mods["value"][1] if "value" in mods else own_default(kind)
     decl("x", GROUP_OF[kind.split("-")[0]], typ, dims, attrs, value)
     return d
 
@@ -426,8 +591,9 @@ def htext(spec):
             lines.append("  " + decl_text(kind, mods))
         else:
             pre = {"parameters": "parameter ", "constants": "constant ", "alg_states": ""}[d["group"]]
-            lines.append("  %s%s %s%s;" % (pre, d["typ"], d["name"], "" if d["value"] is None else " = " + M.pe(d["value"])))
-    lines += ["equation", "  w = z;"]
+            dm = "[%s]" % ", ".join(map(str, d["dims"])) if d["dims"] else ""
+            lines.append("  %s%s %s%s%s;" % (pre, d["typ"], d["name"], dm, "" if d["value"] is None else " = " + M.pe(d["value"])))
+    lines += ["equation"] + (["  w = z;"] if ctxn not in ("arrv", "arrf") else [])
     if KINDS[kind][4]:
         lines.append("  " + KINDS[kind][4])
     return "\n".join(lines + ["end M;"]) + "\n"
@@ -466,10 +632,25 @@ def hstep(decls, state, ev):
             gone = {d["name"] for d in listed if d["group"] == "constants"}
             removed, subst = removed | gone, subst | gone
         elif one == "DA":
-            aliased = True
+            aliased = aliased or any(d["name"] == "z" for d in decls)
+        elif one == "MX":
+            pass  # expand_mx changes the kind of the functions pymoca returns, not the metadata
         elif one == "EV":
             expanded = expanded or any(d["dims"] for d in listed)
     return (frozenset(removed), frozenset(subst), aliased, expanded)
+
+
+def hgp(decls, gp0):
+    """Grid point with the values of array parameters added: the whole array under its name, each element under
+    the name the element gets when vectors are expanded."""
+    gp = dict(gp0)
+    for d in decls:
+        if d["dims"] and d["group"] == "parameters":
+            arr = (np.arange(int(np.prod(d["dims"])), dtype=float).reshape(d["dims"]) + 1.5) * gp0[d["name"]]
+            gp[d["name"]] = arr
+            for ind in np.ndindex(*d["dims"]):
+                gp["%s[%s]" % (d["name"], ",".join(str(i + 1) for i in ind))] = float(arr[ind])
+    return gp
 
 
 def henv(decls, state, gp):
@@ -532,7 +713,8 @@ def observe_v(m, decls, state):
             if var.python_type is not TYPES[d["typ"]]:
                 return ("python-type", g, "-", "python_type of %s is %s, declared %s" % (name, var.python_type.__name__, d["typ"]))
             n = 1 if (ind is not None or not d["dims"]) else int(np.prod(d["dims"]))
-            for gp in HGRID:
+            for gp0 in HGRID:
+                gp = hgp(decls, gp0)
                 env = henv(decls, state, gp)
                 pvals = _live_pvals(m, gp)
                 for a in ATTRS:
@@ -566,7 +748,8 @@ def observe_f(m, decls, state):
     npar = sum(v.symbol.shape[0] * v.symbol.shape[1] for v in m.parameters)
     if f.n_in() != 1 or f.numel_in(0) != npar or f.n_out() != len(MD_GROUPS):
         return ("metadata-function-arity", "parameters", "-", "variable_metadata_function is %s, the model has %d parameter value(s) %r" % (f, npar, [v.symbol.name() for v in m.parameters]))
-    for gp in HGRID:
+    for gp0 in HGRID:
+        gp = hgp(decls, gp0)
         env = henv(decls, state, gp)
         pvec = []
         for v in m.parameters:
@@ -717,6 +900,8 @@ def run(ctx):
             "programs": len(cs),
             "distinct_nontrivial": len({t for t in texts if "(" in t.split("x", 1)[1].split(";")[0] or " = " in t.split(" x", 1)[1].split(";")[0]}),
             "grid": GRID,
+            "grid_s_t": GRID_ST,
+            "grid_array_parameter_factor": GRID_A,
             "history_models": len(hm),
             "history_depth": hdepth(ctx.tier),
             "histories": n_hist,
@@ -729,21 +914,36 @@ def run(ctx):
             "p^2, sin(p) (each-modified for arrays), array literals, fixed true/false; the alphabet of the function's "
             "affine-in-the-parameters decision (operations const + - * / neg and a zero second derivative), each form alone "
             "in its model: affine 3*p, p+q, p-q, 3*p+q/4-1 and non-affine q/p, p/q, 2/p, 1/p, -(p*q), -(q/p), p*q+p, p-q/p, "
-            "(p-q)*p, (p+q)/p, p/(q+1), p*p, on every attribute%s; and all pairs of attributes with forms literal / 2*p+1 / "
+            "(p-q)*p, (p+q)/p, p/(q+1), p*p, and of degree >= 3 (second derivative zero at a point but not identically; "
+            "further parameters s, t): p*q*s, p*q*s+p, p*q*s/4-q, p*q*s*t, p*q*(p-q), (p-1)*(q-1)*(s-1), on every attribute%s; "
+            "array variables (1-D and 2x3%s) with attributes whose elements differ and depend on parameters: an array "
+            "parameter a of the variable's shape as a, 3*a, -(p*a), p*q*a, and array constructors {3*p+q, 4*p+q, ...}, "
+            "{1.5, 4*p, p*q-2, ...}, on every attribute; and all pairs of attributes with forms literal / 2*p+1 / "
             "p*q / 3*p+q/4-1 / q/p; each checked on the Variable object and in variable_metadata_function at %d "
-            "parameter points (p, q never 0). Non-trivial = the declaration carries at least one attribute or value.  "
+            "parameter points (p, q, s, t never 0 or 1, elements of a pairwise different). Non-trivial = the declaration "
+            "carries at least one attribute or value.  "
             "(2) histories on one Model object: for %d models whose attributes depend on parameters (with values, free, "
-            "and defined by an expression), a constant and an alias pair, every sequence of at most %d events from {read "
+            "and defined by an expression), a constant and an alias pair -- and array models (1-D, 2x3%s; p = 2, a free g, an "
+            "array parameter a with a literal value or free) with all of max / min / start / nominal array-valued "
+            "(a, -(p*a), 3*a, g*a, a constructor {3*p+g, 2.5, g*p-2, ...}, a literal array) -- every sequence of at most %d events from {read "
             "the metadata function, read every Variable attribute, simplify(o)} with o each option set that can change "
             "the model's metadata by the reference (resolve_parameter_values, replace_parameter_expressions, "
-            "replace_constant_expressions, replace_parameter_values, replace_constant_values, expand_vectors, detect_aliases%s); "
+            "replace_constant_expressions, replace_parameter_values, replace_constant_values, expand_vectors, "
+            "expand_vectors + expand_mx, detect_aliases%s); "
             "both views are compared with the reference at every read and after the last event, for every listed variable "
             "and every variable list.  A history is non-trivial when one of its simplify calls changes the reference state."
             % (len(KINDS), " of every Real kind" if ctx.tier == "thorough" else " of one scalar Real kind per variable group "
-               "(state, algebraic, input, parameter, constant) and a 1-D algebraic", len(GRID), len(hm), hdepth(ctx.tier), "; replace_parameter_expressions + replace_parameter_values together" if ctx.tier == "thorough" else ""),
+               "(state, algebraic, input, parameter, constant) and a 1-D algebraic",
+               "; 2x2; state, input, parameter" if ctx.tier == "thorough" else " algebraic", len(GRID), len(hm),
+               "; 2x2; state, input, parameter" if ctx.tier == "thorough" else " algebraic", hdepth(ctx.tier),
+               "; replace_parameter_expressions + replace_parameter_values together" if ctx.tier == "thorough" else ""),
         }
     )
-    ctx.assumptions.append("array attributes with parameter-dependent *elements* ({p, 2*p}) are outside the alphabet")
+    ctx.assumptions.append(
+        "array constructors in attributes have expressions or literals as elements, not bare component references "
+        "({p, q}: pymoca's generator raises KeyError on those anywhere, also in equations -- not a metadata matter); "
+        "arrays of more than two dimensions and arrays of components are outside the alphabet"
+    )
     ctx.assumptions.append(
         "histories: a simplify() call that raises ends the history without a verdict (counted in histories_cut_by_simplify_raising); "
         "attributes never mention constants (pymoca's metadata function takes parameters only); the aliased pair carries default "
